@@ -85,6 +85,25 @@ def same_schema_modulo_ageing(before: dict[str, Any], after: dict[str, Any], pkt
     return strip(before, drop) == strip(after, {})
 
 
+def only_addressee_held(first: dict[str, str], second: dict[str, str]) -> bool:
+    """The recorded finding's mechanism, and nothing else: every lost packet is an I / RP addressed to a device (not a
+    gateway, not a broadcast) that is the source of no packet in the snapshot - so after a restart that device does not
+    exist (eavesdropping apart) - and nothing was gained or altered."""
+    if any(k not in first or first[k] != v for k, v in second.items()):
+        return False
+    sources = {ln.split(" ")[-6] for ln in first.values() if len(ln.split(" ")) > 6}
+    sources |= {ln.split(" ")[-4] for ln in first.values() if len(ln.split(" ")) > 6 and ln.split(" ")[-6][:2] == "--"}
+    lost = [v for k, v in first.items() if k not in second]
+    for ln in lost:
+        p = ln.split(" ")
+        if len(p) < 7 or ln[4:6] not in (" I", "RP"):
+            return False
+        dst = p[-5]
+        if dst[:2] in ("18", "63", "--") or dst == p[-6] or dst in sources:
+            return False
+    return bool(lost)
+
+
 def diff_pkts(a: dict[str, str], b: dict[str, str]) -> dict[str, Any]:
     only_a = {k: a[k] for k in list(a)[:400] if k not in b}
     only_b = {k: b[k] for k in list(b)[:400] if k not in a}
@@ -330,6 +349,12 @@ async def check_snapshot(loop, ctx, rig: Rig, include_expired: bool, meta: dict[
             ctx.count("fixpoint.expired_purged")
         elif pkts_b != pkts_a and only_array_halves_merged(pkts_a, pkts_b, joined_a, rig.fed):
             ctx.violate("C16|fixpoint|array-halves-rejoined-on-restore", "two halves of an array (000A/22C9) that were kept apart live are joined when restored: the snapshot loses a packet", {"diff": diff_pkts(pkts_a, pkts_b), "stack": rig.stack, "history": meta})
+        elif pkts_b != pkts_a and only_addressee_held(pkts_a, pkts_b):
+            ctx.violate(
+                "C16|fixpoint|reply-held-only-by-its-addressee-lost-on-restore",
+                "a reply addressed to a device is kept (and saved) by that device alone once its sender has a newer one; restored into a gateway where the addressee does not exist it is kept by nobody",
+                {"diff": diff_pkts(pkts_a, pkts_b), "stack": rig.stack, "history": meta},
+            )
         elif pkts_b != pkts_a:
             d = diff_pkts(pkts_a, pkts_b)
             codes = sorted({code_of(v) for v in list(d["only_in_first"].values()) + list(d["only_in_second"].values())} | {code_of(v[0]) for v in d["changed"].values()})
